@@ -204,6 +204,10 @@ def krylov_svd(idx, rep, rule):
     inline_defs = {id(getattr(r, "_origin", r)): [(role, e) for role, e in zip(("U", "Sigma", "V"), r.value.elts) if not isinstance(e, ast.Name)] for r in rets}
     sym_env = {n: sym(role) for n, role in role_of.items()}
     solver_calls = []
+    solver_outs = set()
+    for st in df.body_nodes(fi.node):
+        if isinstance(st, ast.Assign) and isinstance(st.value, ast.Call) and ast.unparse(st.value.func) in ("lanczos_eigs", "lobpcg") and isinstance(st.targets[0], ast.Tuple):
+            solver_outs |= {e.id for e in st.targets[0].elts if isinstance(e, ast.Name)}
     for label, stmts in blocks(fi):
         gram = None
         for st in stmts:
@@ -227,7 +231,9 @@ def krylov_svd(idx, rep, rule):
                 if tgt not in ("U", "V") or gram is None:
                     continue
                 # which factor came out of the eigen-solver in this block?
-                direct = local is not None and any(isinstance(n, ast.Subscript) and isinstance(n.value, ast.Name) and n.value.id == local for n in ast.walk(value))
+                # (a selection of the solver's own output -- under whatever name -- with no operator product in it)
+                direct = (local is not None and any(isinstance(n, ast.Subscript) and isinstance(n.value, ast.Name) and n.value.id == local for n in ast.walk(value))) or \
+                    (bool(set(df.names_in(value)) & solver_outs) and not any(isinstance(n, ast.BinOp) and isinstance(n.op, ast.MatMult) for n in ast.walk(value)))
                 if direct:
                     continue
                 t = te.eval_in(fi, value, sym_env)
